@@ -124,9 +124,42 @@ def case_rng(seed, prop, shard, idx):
     return random.Random("%s:%s:%s:%s" % (seed, prop, shard, idx))
 
 
+class LineCov:
+    """sys.monitoring LINE events (DISABLE after the first hit, so the cost is one callback per line) for code under
+    <repo>/qubovert: which anchored lines did this shard's workload execute at all?  Informational evidence."""
+
+    def __init__(self, root):
+        import sys
+        self.root = os.path.join(root, "qubovert") + os.sep
+        self.hit = set()
+        self.mon = sys.monitoring
+        self.tool = self.mon.COVERAGE_ID
+        self.mon.use_tool_id(self.tool, "qvmon-linecov")
+        self.mon.register_callback(self.tool, self.mon.events.LINE, self._line)
+        self.mon.set_events(self.tool, self.mon.events.LINE)
+
+    def _line(self, code, line):
+        f = code.co_filename
+        if f.startswith(self.root):
+            self.hit.add((f[len(self.root):], line))
+        return self.mon.DISABLE
+
+    def stop(self):
+        self.mon.set_events(self.tool, 0)
+        self.mon.free_tool_id(self.tool)
+        out = {}
+        for f, l in self.hit:
+            out.setdefault(f, []).append(l)
+        return {f: sorted(v) for f, v in out.items()}
+
+
 def run_shard(mod, tier, seed, shard, nshards, cases, only=None, budget_s=None):
     ctx = Ctx(mod.ID, tier, seed, shard, nshards)
     t0 = time.time()
+    cov = None
+    if os.environ.get("QV_LINECOV") == "1":
+        from . import boot
+        cov = LineCov(boot.repo_root())
     if hasattr(mod, "setup"):
         mod.setup(ctx)
     rng_range = [only] if only is not None else range(cases)
@@ -155,4 +188,7 @@ def run_shard(mod, tier, seed, shard, nshards, cases, only=None, budget_s=None):
     if hasattr(mod, "finish"):
         mod.finish(ctx)
     ctx.notes["wall_s"] = round(time.time() - t0, 2)
-    return ctx.result()
+    res = ctx.result()
+    if cov is not None:
+        res["lines"] = cov.stop()
+    return res
